@@ -1140,7 +1140,11 @@ func trackRun(e *Env) {
 		case k == 6 && len(onChans) > 0:
 			ch := pick(onChans)
 			uniq++
-			net.evTopic(ch, net.sortedMembers(ch)[g.S.Choose(len(ch.members))], fmt.Sprintf("topic %d of %s", uniq, ch.name))
+			topic := fmt.Sprintf("topic %d of %s", uniq, ch.name)
+			if g.S.Choose(5) == 0 {
+				topic = "" // the topic is cleared
+			}
+			net.evTopic(ch, net.sortedMembers(ch)[g.S.Choose(len(ch.members))], topic)
 		case k == 7 && len(onChans) > 0:
 			ch := pick(onChans)
 			net.evMode(ch, net.sortedMembers(ch)[g.S.Choose(len(ch.members))], &uniq)
